@@ -151,6 +151,33 @@ def lbuild (n : Nat) (temp : Temporality) (t : LState) (r now : Nat) (δ : LMap)
       | none =>
         ({ unreported := u', last := setAt t.last r (some (merged, now)) }, some ⟨temp, 0, now, merged⟩)
 
+/-- a storage whose aggregation is last-value, with the sample stamped by the caller: the common core of the
+    synchronous gauge storage and (see `Props/C17.lean`) of the observable gauge storage -/
+structure LStorage where
+  cur : LMap
+  temporal : LState
+
+def LStorage.init : LStorage := { cur := [], temporal := LState.init }
+
+inductive LOp
+  | record (a : Nat) (x : Sample)
+  | collect (r ts : Nat)
+
+def lcollect (c : Cfg) (s : LStorage) (r ts : Nat) : LStorage × Option LData :=
+  if r < c.n then
+    let res := lbuild c.n (c.temp r) s.temporal r ts s.cur
+    ({ cur := [], temporal := res.1 }, res.2)
+  else (s, none)
+
+def lstep (c : Cfg) (s : LStorage) : LOp → LStorage × Option LData
+  | .record a x => ({ s with cur := lset s.cur a x }, none)
+  | .collect r ts => lcollect c s r ts
+
+/-- run a history given most recent operation first -/
+def lrunRev (c : Cfg) : List LOp → LStorage
+  | [] => LStorage.init
+  | op :: o => (lstep c (lrunRev c o) op).1
+
 /-- `AsyncMetricStorage` of an observable gauge -/
 structure GaugeStorage where
   cumulative : LMap
